@@ -64,7 +64,8 @@ fn wrap(w: usize, p: P) -> P {
         10 => P::Parse(p.bx(), ParseK::NoX),
         11 => P::Hide(p.bx()),
         12 => P::HideUsage(p.bx()),
-        13 => P::GroupHelp(p.bx(), DocSpec(vec![(Sty::Text, "grüppe\n".into()), (Sty::Em, "title".into())])),
+        // a title made of multi-byte characters only (character counts never are byte offsets)
+        13 => P::GroupHelp(p.bx(), DocSpec(vec![(Sty::Text, "Настройки сети:\n".into()), (Sty::Em, "ネットワーク".into())])),
         14 => P::Complete(p.bx(), CompK::Echo2 { descr: true }, Some("grp".into())),
         15 => P::CompleteShell(p.bx(), ShellK::File(Some("*.rs".into()))),
         _ => unreachable!(),
@@ -188,7 +189,12 @@ pub fn nested_adjacent() -> Vec<(Opts, Vec<&'static str>, usize)> {
     let v = P::Switch(Names::short('v'));
     let cmd_group = P::Cmd { name: "cmd".into(), shorts: vec![], longs: vec![], inner: Box::new(Opts::new(P::Seq(vec![point1.clone().many()]))), adjacent: true, help: None };
     let cmd_group2 = P::Cmd { name: "cmd".into(), shorts: vec![], longs: vec![], inner: Box::new(Opts::new(P::Seq(vec![P::Switch(Names::short('x')), point1.clone().opt()]))), adjacent: true, help: None };
+    let any_tag = P::Adj(vec![P::AnyKv { metavar: "--tag=NAME".into(), help: None, dash: true }, pos("FILE")]).many();
+    let any_kv = P::Adj(vec![P::AnyKv { metavar: "KEY=VAL".into(), help: None, dash: false }, pos("FILE")]).many();
     vec![
+        (Opts::new(P::Seq(vec![any_tag.clone()])), vec!["--tag=a", "-Tb", "x", "--tag", "-z"], 5),
+        (Opts::new(P::Seq(vec![P::Switch(Names::short('v')), any_tag])), vec!["--tag=a", "x", "-v", "--"], 5),
+        (Opts::new(P::Seq(vec![any_kv])), vec!["k=v", "x", "=", "-z"], 5),
         (Opts::new(P::Seq(vec![rect_many.clone()])), vec!["--rect", "--point", "1", "-z"], 8),
         (Opts::new(P::Seq(vec![v.clone(), rect_many])), vec!["--rect", "--point", "1", "-v"], 8),
         (Opts::new(P::Seq(vec![v.clone(), rect_opt])), vec!["--rect", "--point", "1", "-v", "-w"], 6),
@@ -389,6 +395,8 @@ fn run_mode(p: &bpaf::OptionParser<Val>, mode: &str, argv: &[Tok]) -> Outcome {
 const MODES: [&str; 11] = ["parse", "parse-named", "comp0", "comp1", "comp7", "comp8", "comp9", "comp1-noname", "comp7-noname", "comp8-noname", "comp9-noname"];
 const MARKER_MODES: [&str; 6] = ["marker-first-0", "marker-first-8", "marker-first-9", "marker-last-0", "marker-last-7", "marker-last-1"];
 
+const ENV_VAR: &str = "BPAFMC_C04_ENV";
+
 impl Check for C04 {
     fn id(&self) -> &'static str {
         "C04"
@@ -401,6 +409,37 @@ impl Check for C04 {
         // nested adjacent structures, walked deeply over their own small alphabets
         for (o, alpha, len) in nested_adjacent() {
             out.push(serde_json::to_value(Unit { opts: o, len: tier.pick(len, len + 1), family: format!("nested-adjacent:{}", alpha.join(" ")) }).unwrap());
+        }
+        // items backed by an environment variable, with the variable set (`env-set:` units set
+        // it for their own duration) and unset: every mode, including completion on an empty line
+        for set in [false, true] {
+            let n = |c: char, l: &str| Names::both(c, l).env(ENV_VAR);
+            let items = vec![
+                P::Switch(n('e', "env-switch")),
+                P::ReqFlag(n('e', "env-req")),
+                P::Flag(n('e', "env-flag")),
+                P::arg(n('e', "env-arg"), Ty::Os),
+                P::arg(n('e', "env-num"), Ty::U32).opt(),
+                P::arg(n('e', "env-many"), Ty::Os).many(),
+                P::Count(P::ReqFlag(n('e', "env-count")).bx()),
+                P::Switch(Names::default().env(ENV_VAR)),
+            ];
+            for it in items {
+                for tail in [vec![], vec![P::Switch(Names::short('a'))], vec![P::pos(Ty::Os).opt()], vec![P::cmd("cmd", Opts::new(P::Seq(vec![P::Switch(Names::short('x'))]))).opt()]] {
+                    let mut fields = vec![it.clone()];
+                    fields.extend(tail);
+                    out.push(serde_json::to_value(Unit { opts: Opts::new(P::Seq(fields)), len: 2, family: if set { "env-set".into() } else { "env-unset".into() } }).unwrap());
+                }
+            }
+        }
+        // one short name declared both as a flag and as an argument (reported as ambiguous where a
+        // block cannot be split): ASCII and multi-byte
+        for c in ['a', 'é', '日'] {
+            let flag = P::Switch(Names::short(c));
+            let arg = P::arg(Names::short(c), Ty::Os).opt();
+            let sub = P::cmd("cmd", Opts::new(P::Seq(vec![arg.clone()]))).opt();
+            out.push(serde_json::to_value(Unit { opts: Opts::new(P::Seq(vec![flag.clone(), sub])), len: 2, family: format!("nested-adjacent:-{c} -{c}{c} -{c}=v cmd v", c = c) }).unwrap());
+            out.push(serde_json::to_value(Unit { opts: Opts::new(P::Seq(vec![P::Alt(vec![P::Map(arg.bx(), "a".into()), P::Map(P::ReqFlag(Names::short(c)).bx(), "f".into())])])), len: 3, family: format!("nested-adjacent:-{c} -{c}{c} -{c}v v", c = c) }).unwrap());
         }
         // families of the other properties
         for (o, f) in crate::checks::c19::group_shapes(seed) {
@@ -416,6 +455,12 @@ impl Check for C04 {
     }
     fn run_unit(&self, unit: &Value, ctx: &mut Ctx) {
         let u: Unit = serde_json::from_value(unit.clone()).unwrap();
+        // workers are single-threaded processes: the variable is theirs to set
+        if u.family == "env-set" {
+            std::env::set_var(ENV_VAR, "7");
+        } else {
+            std::env::remove_var(ENV_VAR);
+        }
         let p = match build_checked(&u.opts) {
             Ok(p) => p,
             Err(e) => {
@@ -516,6 +561,11 @@ impl Check for C04 {
     }
     fn replay(&self, unit: &Value, case: &Value, ctx: &mut Ctx) {
         let u: Unit = serde_json::from_value(unit.clone()).unwrap();
+        if u.family == "env-set" {
+            std::env::set_var(ENV_VAR, "7");
+        } else {
+            std::env::remove_var(ENV_VAR);
+        }
         let argv: Vec<Tok> = serde_json::from_value(case["argv"].clone()).unwrap_or_default();
         let mode = case["mode"].as_str().unwrap_or("parse").to_string();
         ctx.s.evaluations += 1;
@@ -544,7 +594,7 @@ impl Check for C04 {
         }
     }
     fn rule(&self) -> String {
-        "definitions = shape grammar: 9 leaves (switch, req_flag, OsString/u32 argument, positional, strict positional, command, pure, fail) under every wrapper (16: optional, optional+catch, many, some, collect+catch, count, last, fallback, failing fallback_with, guard, parse, hide, hide_usage, group_help with a styled non-ASCII title, complete, complete_shell), every wrapper pair (quick: 9 outer wrappers), every binary combination seq/alt/adjacent of two leaves bare, wrapped as a whole and with either side wrapped (thorough: also triples), with 7 rotating option-level configurations (styled multi-fragment non-ASCII descr/header/footer, texts made of every kind of Unicode white space, version, fallback_to_usage, custom help names + usage, max_width), plus titled groups (group_help / with_group_help) at every nesting position around and inside a plain or adjacent block followed by further fields (96 definitions), plus nested adjacent structures (group in group, group below an adjacent command) walked to 6-8 items over their own alphabets, group shapes, general shapes and command trees of the other checks; kept iff check_invariants returns; inputs = every single-item vector over the hostile alphabet and every vector of length <= 2 over its sharpest members plus the declared names (empty string, lone dashes, `=` forms, white space other than the blank (tab, CR, LF, VT, FF, NEL, NBSP, U+2003, U+2028) in words / values / names, long non-ASCII words and names (CJK, Cyrillic, emoji), invalid UTF-8 names and values (stray continuation bytes, truncated 2/3/4-byte sequences, bare / with = / with a body), 200-character cluster and word; 600-character cluster / word / value as single-item vectors, help/version tokens, declared names) in 11 modes (parse, parse with name, completion rev 0/1/7/8/9 with name, 1/7/8/9 without) + completion marker first/last; render_markdown/html/manpage once per definition; histories: every length<=1 vector re-run on the used object and on a second object in reverse order; violation = panic (caught), process death or hang (supervisor), or differing outcome; non-trivial = non-panicking run of a non-empty vector".into()
+        "definitions = shape grammar: 9 leaves (switch, req_flag, OsString/u32 argument, positional, strict positional, command, pure, fail) under every wrapper (16: optional, optional+catch, many, some, collect+catch, count, last, fallback, failing fallback_with, guard, parse, hide, hide_usage, group_help with a styled non-ASCII title, complete, complete_shell), every wrapper pair (quick: 9 outer wrappers), every binary combination seq/alt/adjacent of two leaves bare, wrapped as a whole and with either side wrapped (thorough: also triples), with 7 rotating option-level configurations (styled multi-fragment non-ASCII descr/header/footer, texts made of every kind of Unicode white space, version, fallback_to_usage, custom help names + usage, max_width), plus titled groups (group_help / with_group_help) at every nesting position around and inside a plain or adjacent block followed by further fields (96 definitions), plus items backed by an environment variable (switch, req_flag, flag, argument, optional / repeated argument, counter, variable only) with the variable set and unset, beside a switch / positional / command, plus nested adjacent structures (group in group, group below an adjacent command) walked to 6-8 items over their own alphabets, group shapes, general shapes and command trees of the other checks; kept iff check_invariants returns; inputs = every single-item vector over the hostile alphabet and every vector of length <= 2 over its sharpest members plus the declared names (empty string, lone dashes, `=` forms, white space other than the blank (tab, CR, LF, VT, FF, NEL, NBSP, U+2003, U+2028) in words / values / names, long non-ASCII words and names (CJK, Cyrillic, emoji), invalid UTF-8 names and values (stray continuation bytes, truncated 2/3/4-byte sequences, bare / with = / with a body), 200-character cluster and word; 600-character cluster / word / value as single-item vectors, help/version tokens, declared names) in 11 modes (parse, parse with name, completion rev 0/1/7/8/9 with name, 1/7/8/9 without) + completion marker first/last; render_markdown/html/manpage once per definition; histories: every length<=1 vector re-run on the used object and on a second object in reverse order; violation = panic (caught), process death or hang (supervisor), or differing outcome; non-trivial = non-panicking run of a non-empty vector".into()
     }
     fn bounds(&self, tier: Tier) -> Value {
         json!({"ast_size": tier.pick("<=4 nodes + option-level config", "<=5"), "vector_length": 2, "modes": 17})
